@@ -169,12 +169,13 @@ theorem accession_line_roundtrip (f : Fields) (l rest : Bytes) (stk : List Bytes
 /-- K1A, FULL STATEMENT (false): "the accession reads back".  For EVERY record with a region the
 re-read accession is longer than the written one. -/
 theorem accession_region_full_refuted (f g : Fields) (rest : Bytes) (stk : List Bytes) (h t : Int)
-    (hr : f.region = some (h, t)) (hl : noEOL (accessionLine f) = true)
+    (hr : f.region = some (h, t)) (hht : h < t) (hl : noEOL (accessionLine f) = true)
     (hrest : (sp 12).isPrefixOf rest = false) :
     ∃ g', accessionField 12 g ⟨bs "ACCESSION   " ++ (accessionLine f ++ 10 :: rest), stk⟩ =
         (.ok (g', true), ⟨rest, stk⟩) ∧ g'.accession ≠ f.accession := by
   refine ⟨_, GenBank.accession_roundtrip g _ rest stk hl hrest, ?_⟩
-  simp only [accessionLine, hr]
+  have hnot : ¬ t ≤ h := by omega
+  simp only [accessionLine, hr, hnot, if_false]
   intro e
   have := congrArg List.length e
   simp [bs] at this
